@@ -745,6 +745,8 @@ class Summariser:
         t = ("sub", b, k)
         if b[0] in ("tuple", "list") and N.is_int(k) and -len(b[1]) <= k[2] < len(b[1]):
             return b[1][k[2]]
+        if k == N.const(-1) and (b, "[-1]") in st.heap:
+            return st.heap[(b, "[-1]")]      # x[-1] right after x.append(v)
         if b[0] not in ("tuple", "list", "dict", "c") and k[0] != "slice":
             self.emit(st, "GETITEM", {"base": b, "key": k, "res": t}, node)
         return t
@@ -756,6 +758,8 @@ class Summariser:
         return ("tuple", tuple(self.expr(e, st) for e in node.elts))
 
     def e_List(self, node, st):
+        if not node.elts:
+            return ("new", "list", st.tick("new:list"))
         return ("list", tuple(self.expr(e, st) for e in node.elts))
 
     def e_Set(self, node, st):
@@ -1095,6 +1099,10 @@ class Summariser:
             self.emit(st, "SELFCALL", {"method": meth, "args": args, "kw": kws, "res": t}, node)
             return t
         if meth in MUT_METHODS:
+            if meth == "append" and len(args) == 1:
+                st.heap[(base, "[-1]")] = args[0]
+            else:
+                st.heap.pop((base, "[-1]"), None)
             kind = "SELFWRITE" if self.roots_in_self(base) else "MUT"
             t = ("call", fterm, args, kws)
             a = {"base": base, "method": meth, "args": args, "kw": kws, "res": t}
@@ -1142,14 +1150,14 @@ class Summariser:
             self.fi, self.self_cls = saved_fi, saved_cls
         raises = [(s, o) for s, o in res if o[0] == "raise"]
         res = [(s, o) for s, o in res if o[0] != "raise"]
+        rets = [(s, o) for s, o in res if o[0] in ("return", "normal")]
+        if len(res) != 1 or len(rets) != 1:
+            return None
         for s, o in raises:
             # exceptional exits of the callee continue in the caller's frame
             s.env = dict(st.env)
             s.depth = st.depth
             self.pending.append((s, o))
-        rets = [(s, o) for s, o in res if o[0] in ("return", "normal")]
-        if len(res) != 1 or len(rets) != 1:
-            return None
         s, o = rets[0]
         st.events[:] = s.events
         st.counters = s.counters
